@@ -16,7 +16,7 @@ Open Scope Z_scope.
 Fixpoint unhex_fuel (fuel : nat) (z : Z) (acc : bytes) : bytes :=
   match fuel with
   | O => acc
-  | S f => if z <=? 1 then acc else unhex_fuel f (z / 256) (z mod 256 :: acc)
+  | S f => if z <=? 1 then acc else unhex_fuel f (Z.shiftr z 8) (Z.land z 255 :: acc)
   end.
 Definition unhex (z : Z) : bytes := unhex_fuel (Z.to_nat (Z.log2 z / 8 + 1)) z [].
 
